@@ -42,8 +42,24 @@ def val(x):
     return np.asarray(x, dtype=float)
 
 
+def two_systems_one_state(fails):
+    """two system objects of one class (different densities / metrics) used on the same state must not see each other's values"""
+    a = S.EuclideanMetricSystem(nld, grad_neg_log_dens=grad, metric=np.array([1.0, 2.0, 0.5]))
+    b = S.EuclideanMetricSystem(lambda q: 2.0 * nld(q) + 1.0, grad_neg_log_dens=lambda q: 2.0 * grad(q), metric=np.array([3.0, 1.0, 4.0]))
+    q, p = np.array([0.3, -0.7, 1.1]), np.array([0.2, 0.5, -0.4])
+    st = ChainState(pos=q.copy(), mom=p.copy(), dir=1)
+    for m in ("neg_log_dens", "grad_neg_log_dens", "h1", "h2", "h", "dh2_dmom", "dh_dpos"):
+        getattr(a, m)(st)
+        got = val(getattr(b, m)(st))
+        want = val(getattr(b, m)(ChainState(pos=q.copy(), mom=p.copy(), dir=1)))
+        if not np.allclose(got, want, rtol=1e-12, atol=1e-12):
+            fails.append(f"two EuclideanMetricSystem objects on one state: after a.{m}(state), b.{m}(state) returns {got} but from scratch gives {want}")
+            break
+
+
 def main():
     fails = []
+    two_systems_one_state(fails)
     rng = np.random.default_rng(11)
     for name, mk in make_systems():
         sysA, sysB = mk(), mk()
